@@ -45,24 +45,25 @@ func (t TypeSet) String() string {
 
 // State is the abstract state at a program point.
 type State struct {
-	an    *Analysis
-	env   map[ssa.Value]*Expr // term of each SSA value computed so far
-	rng   map[string]ISet     // atom key -> value set (ints; bools 0/1; nilness 0=nil 1=non-nil under key "nn:"+key)
-	facts map[string]Fact
-	mem   map[string]*Expr  // address key -> stored value term
-	memE  map[string]*Expr  // address key -> address term
-	ver   map[string]string // alias class -> version token (site of the last may-aliasing write)
-	fresh map[string]bool   // alloc leaf keys that are fresh (zero-initialised, unaliased)
-	types map[string]TypeSet
-	may   map[string]bool // events that happened on some path to here
-	must  map[string]bool // events that happened on every path to here
-	dead  bool
+	an     *Analysis
+	env    map[ssa.Value]*Expr // term of each SSA value computed so far
+	rng    map[string]ISet     // atom key -> value set (ints; bools 0/1; nilness 0=nil 1=non-nil under key "nn:"+key)
+	facts  map[string]Fact
+	mem    map[string]*Expr  // address key -> stored value term
+	memE   map[string]*Expr  // address key -> address term
+	ver    map[string]string // alias class -> version token (site of the last may-aliasing write)
+	fresh  map[string]bool   // alloc leaf keys that are fresh (zero-initialised, unaliased)
+	shared map[string]bool   // captured cells that a closure assigns (forgotten at every call)
+	types  map[string]TypeSet
+	may    map[string]bool // events that happened on some path to here
+	must   map[string]bool // events that happened on every path to here
+	dead   bool
 	// trail of partition-relevant choices (for reports)
 }
 
 func newState(an *Analysis) *State {
 	return &State{an: an, env: map[ssa.Value]*Expr{}, rng: map[string]ISet{}, facts: map[string]Fact{},
-		mem: map[string]*Expr{}, memE: map[string]*Expr{}, ver: map[string]string{}, fresh: map[string]bool{}, types: map[string]TypeSet{}, may: map[string]bool{}, must: map[string]bool{}}
+		mem: map[string]*Expr{}, memE: map[string]*Expr{}, ver: map[string]string{}, fresh: map[string]bool{}, shared: map[string]bool{}, types: map[string]TypeSet{}, may: map[string]bool{}, must: map[string]bool{}}
 }
 
 func (s *State) clone() *State {
@@ -96,6 +97,10 @@ func (s *State) clone() *State {
 	}
 	for k, v := range s.fresh {
 		n.fresh[k] = v
+	}
+	n.shared = make(map[string]bool, len(s.shared))
+	for k, v := range s.shared {
+		n.shared[k] = v
 	}
 	for k, v := range s.types {
 		n.types[k] = v.clone()
@@ -1222,6 +1227,12 @@ func (s *State) join(o *State, widen bool, joinTok string) bool {
 	for k := range s.fresh {
 		if !o.fresh[k] {
 			delete(s.fresh, k)
+			changed = true
+		}
+	}
+	for k := range o.shared {
+		if !s.shared[k] {
+			s.shared[k] = true
 			changed = true
 		}
 	}
